@@ -714,6 +714,15 @@ class Explorer:
                         v = self.sym("mem%d:%s" % (self._nmem, f.src(c[0])), r[0], r[1])
                         st.store[loc] = v
                         return v
+                if loc is not None and loc not in st.store and loc[1] and isinstance(loc[1][-1], int):
+                    # a character of a string the rule placed in a char array / behind a char pointer
+                    sv = st.store.get((loc[0], loc[1][:-1]))
+                    if sv is not None and sv[0] == "str":
+                        k_ = loc[1][-1]
+                        if 0 <= k_ < len(sv[1]):
+                            return INT(ord(sv[1][k_]))
+                        if k_ == len(sv[1]):
+                            return INT(0)
                 if loc is not None and loc not in st.store:
                     tname = n.get("ct") or n.get("t") or ""
                     if tname.startswith("struct ") or tname.startswith("union "):
